@@ -84,12 +84,27 @@ func c23Executors(e *c23Env) []c23Executor {
 
 // protocol state ------------------------------------------------------------------------------------
 
+// Status of the error result of the last child.Next / build / logic.Next / logic.Close call: the set of abstract
+// values the error variable can still have on this path (bit set over nil, io.EOF, any other error), 0 = no such
+// call pending. Branch conditions filter the set (c23Machine.evalCond), so compound and nested tests are understood.
 const (
-	c23None uint8 = iota
-	c23Unchecked
-	c23Good
-	c23Failed
+	c23None      uint8 = 0
+	c23Good      uint8 = 1 // {nil}
+	c23vEOF      uint8 = 2
+	c23vOther    uint8 = 4
+	c23Unchecked uint8 = 7 // {nil, EOF, other}
 )
+
+// c23NotRuledOut: an error is still possible (or certain).
+func c23NotRuledOut(x uint8) bool { return x != c23None && x != c23Good }
+
+// c23IsFailed: an error is certain. For the logic iterator io.EOF alone is not an error (it means drained).
+func c23IsFailed(kind, x uint8) bool {
+	if x == c23None || x&c23Good != 0 {
+		return false
+	}
+	return kind != c23KLogic || x&c23vOther != 0
+}
 
 const (
 	c23KOther uint8 = iota
@@ -319,7 +334,7 @@ func (m *c23Machine) node(n ast.Node, s c23St, class int) (c23St, pathAct) {
 				return s, pathBad
 			}
 		case c23KLogic:
-			if (s.logicErr == c23Unchecked || s.logicErr == c23Failed) && bad(c23VLogicErr) {
+			if c23NotRuledOut(s.logicErr) && bad(c23VLogicErr) {
 				return s, pathBad // the previous Next's error was never ruled out
 			}
 			if s.buildErr != c23Good && bad(c23VBuildErr) {
@@ -380,50 +395,91 @@ func c23VClassOf(kind uint8) uint8 {
 	return 0
 }
 
-// condOn classifies the branch condition that ends block b: a test of obj against nil or io.EOF.
-// It returns which, and whether taking successor `succ` means "is non-nil" / "is EOF".
-func (m *c23Machine) condOn(b *cfg.Block, succ int) (obj types.Object, isEOFTest, holds, ok bool) {
-	if o, nonNil, ok := ErrNilEdge(m.info, b, succ); ok {
-		return o, false, nonNil, true
+// tri-state truth
+const (
+	c23F = iota
+	c23T
+	c23U
+)
+
+func c23Not(t int) int {
+	switch t {
+	case c23T:
+		return c23F
+	case c23F:
+		return c23T
 	}
-	if len(b.Nodes) == 0 || len(b.Succs) != 2 {
-		return nil, false, false, false
-	}
-	cond := ast.Unparen(asExpr(b.Nodes[len(b.Nodes)-1]))
-	neg := false
-	if ue, ok := cond.(*ast.UnaryExpr); ok && ue.Op == token.NOT {
-		neg, cond = true, ast.Unparen(ue.X)
-	}
+	return c23U
+}
+
+// evalCond evaluates a branch condition under the assumption that the tracked error variable obj has the abstract
+// value v (c23Good = nil, c23vEOF, c23vOther). Atoms that do not test obj are unknown.
+func (m *c23Machine) evalCond(e ast.Expr, obj types.Object, v uint8) int {
 	isEOF := func(x ast.Expr) bool {
 		se, ok := ast.Unparen(x).(*ast.SelectorExpr)
 		return ok && m.eofObj != nil && m.info.Uses[se.Sel] == m.eofObj
 	}
-	switch x := cond.(type) {
+	truth := func(b bool) int {
+		if b {
+			return c23T
+		}
+		return c23F
+	}
+	switch x := ast.Unparen(e).(type) {
+	case *ast.UnaryExpr:
+		if x.Op == token.NOT {
+			return c23Not(m.evalCond(x.X, obj, v))
+		}
 	case *ast.BinaryExpr:
-		if x.Op != token.EQL && x.Op != token.NEQ {
-			return nil, false, false, false
-		}
-		var other ast.Expr
-		if isEOF(x.Y) {
-			other = x.X
-		} else if isEOF(x.X) {
-			other = x.Y
-		} else {
-			return nil, false, false, false
-		}
-		o := c23Obj(m.info, other)
-		if o == nil {
-			return nil, false, false, false
-		}
-		return o, true, ((x.Op == token.EQL) == (succ == 0)) != neg, true
-	case *ast.CallExpr:
-		if fn := Callee(m.info, x); fn != nil && m.errorsIs != nil && fn == m.errorsIs && len(x.Args) == 2 && isEOF(x.Args[1]) {
-			if o := c23Obj(m.info, x.Args[0]); o != nil {
-				return o, true, (succ == 0) != neg, true
+		switch x.Op {
+		case token.LAND:
+			l, r := m.evalCond(x.X, obj, v), m.evalCond(x.Y, obj, v)
+			if l == c23F || r == c23F {
+				return c23F
 			}
+			if l == c23T && r == c23T {
+				return c23T
+			}
+			return c23U
+		case token.LOR:
+			l, r := m.evalCond(x.X, obj, v), m.evalCond(x.Y, obj, v)
+			if l == c23T || r == c23T {
+				return c23T
+			}
+			if l == c23F && r == c23F {
+				return c23F
+			}
+			return c23U
+		case token.EQL, token.NEQ:
+			var other ast.Expr
+			if c23Obj(m.info, x.X) == obj {
+				other = x.Y
+			} else if c23Obj(m.info, x.Y) == obj {
+				other = x.X
+			} else {
+				return c23U
+			}
+			var r int
+			switch {
+			case isNilIdent(m.info, other):
+				r = truth(v == c23Good)
+			case isEOF(other):
+				r = truth(v == c23vEOF)
+			default:
+				return c23U
+			}
+			if x.Op == token.NEQ {
+				r = c23Not(r)
+			}
+			return r
+		}
+	case *ast.CallExpr:
+		if fn := Callee(m.info, x); fn != nil && m.errorsIs != nil && fn == m.errorsIs && len(x.Args) == 2 && c23Obj(m.info, x.Args[0]) == obj && isEOF(x.Args[1]) {
+			// errors.Is(err, io.EOF) is read like err == io.EOF: "EOF" in the abstraction is whatever the code tests as EOF
+			return truth(v == c23vEOF)
 		}
 	}
-	return nil, false, false, false
+	return c23U
 }
 
 func (m *c23Machine) edge(b *cfg.Block, succ int, s c23St) (c23St, bool) {
@@ -440,42 +496,59 @@ func (m *c23Machine) edge(b *cfg.Block, succ int, s c23St) (c23St, bool) {
 		}
 		return s, true
 	}
-	obj, isEOF, holds, ok := m.condOn(b, succ)
-	if !ok || s.last == c23KOther || int(s.errObj) >= len(m.objs) || obj != m.objs[s.errObj] {
+	if len(b.Succs) != 2 || len(b.Nodes) == 0 || s.last == c23KOther || int(s.errObj) >= len(m.objs) {
 		return s, true
 	}
-	set := func(p *uint8, kind uint8) {
-		switch {
-		case isEOF && holds:
-			// the error is io.EOF: for the logic iterator this is "drained"; for others it is an error like any other
-			if kind == c23KLogic {
-				*p = c23None
-				s.drained = true
-				if s.failObj >= 0 && s.failKind == c23KLogic {
-					s.failObj = -1
-				}
-			}
-		case isEOF && !holds:
-			// not EOF: nothing learned about nil-ness
-		case holds: // non-nil
-			*p = c23Failed
-			s = m.fail(s, kind)
-			if kind == c23KBuild {
-				s.needClose = false // nothing was built
-			}
-		default: // nil
-			*p = c23Good
-		}
+	cond, isExpr := b.Nodes[len(b.Nodes)-1].(ast.Expr)
+	if !isExpr {
+		return s, true
 	}
+	var p *uint8
 	switch s.last {
 	case c23KChild:
-		set(&s.childErr, c23KChild)
+		p = &s.childErr
 	case c23KBuild:
-		set(&s.buildErr, c23KBuild)
+		p = &s.buildErr
 	case c23KLogic:
-		set(&s.logicErr, c23KLogic)
+		p = &s.logicErr
 	case c23KClose:
-		set(&s.closeErr, c23KClose)
+		p = &s.closeErr
+	}
+	if p == nil || *p == c23None {
+		return s, true
+	}
+	obj := m.objs[s.errObj]
+	var nw uint8
+	for _, v := range []uint8{c23Good, c23vEOF, c23vOther} {
+		if *p&v == 0 {
+			continue
+		}
+		if r := m.evalCond(cond, obj, v); r == c23U || (r == c23T) == (succ == 0) {
+			nw |= v
+		}
+	}
+	if nw == 0 {
+		return s, false // infeasible edge
+	}
+	kind := s.last
+	*p = nw
+	switch {
+	case kind == c23KLogic && nw == c23vEOF:
+		// the logic iterator is drained
+		*p = c23None
+		s.drained = true
+		if s.failObj >= 0 && s.failKind == c23KLogic {
+			s.failObj = -1
+		}
+	case c23IsFailed(kind, nw):
+		s = m.fail(s, kind)
+		if kind == c23KBuild {
+			s.needClose = false // nothing was built
+		}
+	default:
+		if s.failObj >= 0 && s.failKind == kind && s.failObj == s.errObj {
+			s.failObj = -1
+		}
 	}
 	return s, true
 }
@@ -514,9 +587,9 @@ func (m *c23Machine) exit(s c23St, ret *ast.ReturnStmt, class int) bool {
 	case c23VBuildErr:
 		return s.build > 0 && s.buildErr != c23Good
 	case c23VLogicErr:
-		return s.logicErr == c23Unchecked || s.logicErr == c23Failed
+		return c23NotRuledOut(s.logicErr)
 	case c23VCloseErr:
-		return s.closeErr == c23Unchecked || s.closeErr == c23Failed
+		return c23NotRuledOut(s.closeErr)
 	}
 	return false
 }
